@@ -126,3 +126,35 @@ macro_rules! recv_loop {
 recv_loop!(recv_loop_v2c_1, 1);
 //@ C01,C04,C18 quick timeout=900 | same with 2 datagrams
 recv_loop!(recv_loop_v2c_2, 2);
+
+macro_rules! socket_timeout_config {
+    ($name:ident, $t:expr) => {
+        #[kani::proof]
+        #[kani::unwind(6)]
+        #[kani::stub(alloc::fmt::format, stub_format)]
+        #[kani::stub(core::fmt::write, stub_fmt_write)]
+        #[kani::stub(<std::io::Error as std::fmt::Display>::fmt, stub_ioerr_fmt)]
+        fn $name() {
+            let t: u64 = $t;
+            let mut s = SnmpV2cClientSocket::new("127.0.0.1:161".to_string(), "pub".to_string(), 0, 0, 0, t).expect("socket");
+            let io = s.get_io();
+            if t > 0 {
+                assert!(io.read_timeout.get() == Some(std::time::Duration::from_nanos(t)), "receive_timeout_is_session_timeout");
+                assert!(!io.nonblocking.get(), "blocking_socket_expected");
+            } else {
+                assert!(io.nonblocking.get() && io.read_timeout.get().is_none(), "zero_timeout_is_nonblocking");
+            }
+            assert!(io.connected.get(), "connected");
+            kani::cover!(true, "configured");
+            core::mem::forget(s);
+        }
+    };
+}
+//@ C18,C03 thorough timeout=5400 optional | socket construction for EVERY timeout_ns (symbolic 64-bit division: not seen to finish): a positive timeout arms exactly that receive timeout; zero selects non-blocking mode
+socket_timeout_config!(socket_timeout_config_any, kani::any());
+//@ C18,C03 quick | socket construction, timeout 1.5 s (fractional seconds): receive timeout == 1.5 s exactly
+socket_timeout_config!(socket_timeout_config_1500ms, 1_500_000_000u64);
+//@ C18,C03 quick | socket construction, timeout 0.3 s (below one second)
+socket_timeout_config!(socket_timeout_config_300ms, 300_000_000u64);
+//@ C18,C03 quick | socket construction, timeout 0: non-blocking socket
+socket_timeout_config!(socket_timeout_config_0, 0u64);
